@@ -55,7 +55,12 @@ Definition mk_config rg sv now al ir px s3 fold : config :=
 Record prov_spec := mk_prov {
   ps_rp : nat; ps_re : option err_spec; ps_cp : nat;
   ps_table : list (bytes * option bytes * bytes * N);
-  ps_fail : option err_spec
+  ps_fail : option err_spec;
+  (* 0: [ps_fail] answers every call; k > 0: it answers the first k calls the instance receives and
+     later calls are answered from the table (a provider that recovers) *)
+  ps_fail_first : nat;
+  (* calls the instance had received before this validation (histories on one instance) *)
+  ps_calls_before : nat
 }.
 
 (* the harness provider: SigV4 key derivation from a secret table, written independently of
@@ -69,8 +74,15 @@ Definition derive_key (secret : bytes) (date : Z * Z * Z) (region service : byte
 Definition table_find (ps : prov_spec) (ak : bytes) (tok : option bytes) :=
   find (fun e => let '(a, t, _, _) := e in bytes_eqb a ak && opt_bytes_eqb t tok) (ps_table ps).
 
-Definition provider_answer (ps : prov_spec) (rq : gsk_request) : gsk_answer :=
+(* the scripted failure that answers the i-th call (0-based) made to the instance, if any *)
+Definition fail_at (ps : prov_spec) (i : nat) : option err_spec :=
   match ps_fail ps with
+  | Some e => if Nat.eqb (ps_fail_first ps) 0 || Nat.ltb i (ps_fail_first ps) then Some e else None
+  | None => None
+  end.
+
+Definition provider_answer_at (ps : prov_spec) (i : nat) (rq : gsk_request) : gsk_answer :=
+  match fail_at ps i with
   | Some e => AnsErr (box_of e)
   | None =>
       match table_find ps (g_access_key rq) (g_token rq) with
@@ -80,6 +92,13 @@ Definition provider_answer (ps : prov_spec) (rq : gsk_request) : gsk_answer :=
                 ("u"%byte :: dec idx) ("s"%byte :: dec idx)
       end
   end.
+
+(* A validation makes at most one call (C14), so the stateful provider is, for one validation, the
+   stateless one that answers as the instance does at the call index it has reached.  The stateful
+   provider lives here, on top of the model's [provider] record; Model/Validate.v is unchanged. *)
+Definition fail_now (ps : prov_spec) : option err_spec := fail_at ps (ps_calls_before ps).
+Definition provider_answer (ps : prov_spec) (rq : gsk_request) : gsk_answer :=
+  provider_answer_at ps (ps_calls_before ps) rq.
 
 Definition provider_of (ps : prov_spec) : provider :=
   {| pv_ready_pending := ps_rp ps; pv_ready := option_map box_of (ps_re ps);
@@ -295,8 +314,8 @@ Definition taxonomy_ok (ob : observation) : bool :=
 Definition provider_protocol_ok (ps : prov_spec) (ob : observation) : bool :=
   N.leb (N.of_nat (length (ob_calls ob))) 1 && negb (ob_cbr ob)
   && (match ps_re ps with Some _ => negb (is_accepted (ob_out ob)) && is_nil (ob_calls ob) | None => true end)
-  && (match ps_fail ps with Some _ => negb (is_accepted (ob_out ob)) | None => true end)
-  && (match ps_re ps, ps_fail ps, ob_calls ob with
+  && (match fail_now ps with Some _ => negb (is_accepted (ob_out ob)) | None => true end)
+  && (match ps_re ps, fail_now ps, ob_calls ob with
       | Some e, _, _ | None, Some e, [_] =>
           (* the provider's error comes back unchanged / as InternalServiceError *)
           match ob_out ob with ORefused k _ _ => N.eqb k (kind_id (from_box (box_of e))) | _ => false end
